@@ -216,7 +216,8 @@ class VcdGenerationPass( BasePass ):
     # Separate clock net from normal nets ahead of time
     clock_symbol = net_symbol_mapping[ vcd_clock_net_idx ]
 
-    net_details = [ ( trimmed_value_nets[i][0], net_symbol_mapping[i] )
+    # Keep each net's own index: last_values is indexed by net, clock included
+    net_details = [ ( i, trimmed_value_nets[i][0], net_symbol_mapping[i] )
                     for i in range(len(trimmed_value_nets))
                       if i != vcd_clock_net_idx ]
 
@@ -232,7 +233,7 @@ class VcdGenerationPass( BasePass ):
     def dump_vcd_inner( s ):
       nonlocal vcd_sim_ncycles
 
-      for i, (signal, symbol) in enumerate( net_details ):
+      for i, signal, symbol in net_details:
 
         # If we encounter a BitStruct then dump it as a concatenation of
         # all fields.
